@@ -87,14 +87,16 @@ class TcpConnection():
             tcp_connection.debug(f"[Socket-{self.sock_id}] De-registering "\
                                  f"Socket from Selector address: "\
                                  f"{self.selector.get_map()}")
-    
-            self.sock.close()
-            tcp_connection.debug(f"[Socket-{self.sock_id}] Shutting "\
-                                 f"down Socket")
 
         except KeyError as e:
             tcp_connection.debug(f"[Socket-{self.sock_id}] There is no "\
                                  f"such Selector registered")
+
+        #: The socket is released even when it has not been registered yet 
+        #: (connection refused while the application is still starting).
+        self.sock.close()
+        tcp_connection.debug(f"[Socket-{self.sock_id}] Shutting "\
+                             f"down Socket")
 
         self._stop_threads = True
 
